@@ -46,7 +46,8 @@ RESERVED = {"nrow", "ncol", "time_generated", "author", "source_file",
             "pandas_version", "numpy_version", "python_inc", "python_lib"}
 FORMATS = ["%0.5f", "%0.2f", "%0.10e", "%.17g"]
 MODES = ["plain.csv", "plain.txt", "plain", "zip.csv", "zip.zip", "zip",
-         "zip.txt", "archive"]
+         "zip.txt", "archive", "zip.csv.zip", "zip.csv.csv", "zip.v2.zip",
+         "plain.csv.csv", "zip.CSV", "zip.tar.zip"]
 
 
 def looks_numeric(s):
